@@ -298,8 +298,12 @@ func ximageCompare(k *mon.Case, f *sfnt.Font, info *fontgen.Info, out []byte, de
 			}
 			got, err := xf.Outline(gid)
 			if err != nil {
-				k.Skip("ximage:outline-unsupported")
-				continue
+				if isUnsupportedXimage(err) {
+					k.Skip("ximage:outline-unsupported")
+					continue
+				}
+				k.Fail("mismatch", "ximage:rejects-glyph", "x/image cannot load the outline of glyph %d: %v (%s)", gid, err, desc)
+				return
 			}
 			k.Eval()
 			if !ximg.SameSegs(got, want) {
@@ -325,8 +329,12 @@ func ximageCompare(k *mon.Case, f *sfnt.Font, info *fontgen.Info, out []byte, de
 			}
 			got, err := xf.Outline(gid)
 			if err != nil {
-				k.Skip("ximage:outline-unsupported")
-				continue
+				if isUnsupportedXimage(err) {
+					k.Skip("ximage:outline-unsupported")
+					continue
+				}
+				k.Fail("mismatch", "ximage:rejects-glyph", "x/image cannot load the outline of glyph %d: %v (%s)", gid, err, desc)
+				return
 			}
 			k.Eval()
 			if !ximg.SameSegs(got, want) {
